@@ -754,8 +754,91 @@ pub fn generate_names_table2(emit: &mut dyn FnMut(String)) {
 	}
 }
 
+/// Two records in (possibly) different namespaces, each referring by the SAME unqualified text to
+/// a type of its own namespace that is only defined later: both references are pending at once,
+/// and each must be bound to the definition its enclosing namespace designates. The expected
+/// canonical form is written out here from the specification (the definition stands where the
+/// name is first met).
+pub fn generate_pending_twins(emit: &mut dyn FnMut(String)) {
+	let outer_ns = [None, Some("a"), Some("b")];
+	let ns_attr = [None, Some(""), Some("a"), Some("b"), Some("a.b")];
+	let fulln = |ns: &Option<String>, n: &str| match ns {
+		Some(s) => format!("{s}.{n}"),
+		None => n.to_string(),
+	};
+	for eo in outer_ns {
+		for n0 in ns_attr {
+			for n1 in ns_attr {
+				for defs_first_named in [false, true] {
+					let eff = |na: Option<&str>| -> Option<String> {
+						match na {
+							None => eo.map(|s| s.to_string()),
+							Some("") => None,
+							Some(s) => Some(s.to_string()),
+						}
+					};
+					let (e0, e1) = (eff(n0), eff(n1));
+					let wrapper = |i: usize, na: Option<&str>| {
+						let mut w = json!({"type": "record", "name": format!("W{i}"), "fields": [{"name": "r", "type": "X"}]});
+						if let Some(na) = na {
+							w.as_object_mut().unwrap().insert("namespace".into(), json!(na));
+						}
+						w
+					};
+					// definitions, each with its namespace given explicitly (as an attribute, or - the
+					// other spelling - as a dotted name)
+					let def = |i: usize, e: &Option<String>| {
+						let mut d = if i == 0 { json!({"type": "enum", "symbols": ["A"]}) } else { json!({"type": "fixed", "size": 3}) };
+						let o = d.as_object_mut().unwrap();
+						if defs_first_named && e.is_some() {
+							o.insert("name".into(), json!(fulln(e, "X")));
+						} else {
+							o.insert("name".into(), json!("X"));
+							o.insert("namespace".into(), json!(e.clone().unwrap_or_default()));
+						}
+						d
+					};
+					let mut fields = vec![json!({"name": "w0", "type": wrapper(0, n0)}), json!({"name": "w1", "type": wrapper(1, n1)})];
+					fields.push(json!({"name": "d0", "type": def(0, &e0)}));
+					if e0 != e1 {
+						fields.push(json!({"name": "d1", "type": def(1, &e1)}));
+					}
+					let mut outer = json!({"type": "record", "name": "Root", "fields": fields});
+					if let Some(eo) = eo {
+						outer.as_object_mut().unwrap().insert("namespace".into(), json!(eo));
+					}
+					let text = serde_json::to_string(&outer).unwrap();
+					let x0 = format!("{{\"name\":\"{}\",\"type\":\"enum\",\"symbols\":[\"A\"]}}", fulln(&e0, "X"));
+					let x1 = if e0 == e1 { format!("\"{}\"", fulln(&e0, "X")) } else { format!("{{\"name\":\"{}\",\"type\":\"fixed\",\"size\":3}}", fulln(&e1, "X")) };
+					let mut expected = format!(
+						"{{\"name\":\"{}\",\"type\":\"record\",\"fields\":[{{\"name\":\"w0\",\"type\":{{\"name\":\"{}\",\"type\":\"record\",\"fields\":[{{\"name\":\"r\",\"type\":{}}}]}}}},{{\"name\":\"w1\",\"type\":{{\"name\":\"{}\",\"type\":\"record\",\"fields\":[{{\"name\":\"r\",\"type\":{}}}]}}}},{{\"name\":\"d0\",\"type\":\"{}\"}}",
+						fulln(&eo.map(|s| s.to_string()), "Root"),
+						fulln(&e0, "W0"),
+						x0,
+						fulln(&e1, "W1"),
+						x1,
+						fulln(&e0, "X"),
+					);
+					if e0 != e1 {
+						expected.push_str(&format!(",{{\"name\":\"d1\",\"type\":\"{}\"}}", fulln(&e1, "X")));
+					}
+					expected.push_str("]}");
+					let mut w = W::default();
+					w.t("schema").t("ok").xs(&text);
+					let mut jw = W::default();
+					if json_tokens(&mut jw, &text) {
+						w.t(&jw.s).xs(&expected);
+						emit(w.s);
+					}
+				}
+			}
+		}
+	}
+}
+
 pub fn generate(stream: &str, seed: u64, n: usize, emit: &mut dyn FnMut(String)) {
 	if stream == "names-table" {
+		generate_pending_twins(emit);
 		generate_names_table2(emit);
 		return generate_names_table(emit);
 	}
@@ -1014,8 +1097,113 @@ pub fn generate_graph_names(emit: &mut dyn FnMut(String)) {
 	}
 }
 
+/// every cycle of length one or two through unnamed nodes, for every combination of array, map
+/// and union, standing alone, under a record field, and next to a legal branch (each unnamed kind
+/// has its own guard in the canonical-form writer and in the renderer)
+fn unnamed_cycles(emit: &mut dyn FnMut(String)) {
+	let mk = |kind: usize, to: usize| match kind {
+		0 => Reg::Array(to),
+		1 => Reg::Map(to),
+		_ => Reg::Union(vec![to]),
+	};
+	let n = |reg: Reg| RawNode { reg, logical: None };
+	let mut graphs: Vec<Vec<RawNode>> = vec![];
+	for a in 0..3 {
+		// self-loop at the root, and under a record
+		graphs.push(vec![n(mk(a, 0))]);
+		graphs.push(vec![n(Reg::Record("R".into(), vec![("f".into(), 1)])), n(mk(a, 1))]);
+		for b in 0..3 {
+			graphs.push(vec![n(mk(a, 1)), n(mk(b, 0))]);
+			graphs.push(vec![n(Reg::Record("R".into(), vec![("f".into(), 1), ("g".into(), 2)])), n(mk(a, 2)), n(mk(b, 1))]);
+			// the cycle next to a legal way out (a union with a primitive branch)
+			graphs.push(vec![n(mk(a, 1)), n(Reg::Union(vec![2, 3])), n(Reg::Long), n(mk(b, 0))]);
+		}
+	}
+	for g in graphs {
+		let mut w = W::default();
+		w.t("graph").n(0).schema(&g);
+		emit(w.s);
+	}
+}
+
+/// acyclic graphs in which records are first reached through an array, map or union and then
+/// embed one another DIRECTLY (a field whose type is the record itself), in every order of
+/// definition: the walk of the cycle check starts afresh at each of them, and what one walk
+/// leaves behind must not disturb the next (the regenerated document has to parse back)
+fn embedded_records(emit: &mut dyn FnMut(String)) {
+	let n = |reg: Reg| RawNode { reg, logical: None };
+	let wrap = |kind: usize, to: usize, null: usize| match kind {
+		0 => Reg::Array(to),
+		1 => Reg::Map(to),
+		_ => Reg::Union(vec![null, to]),
+	};
+	let mut graphs: Vec<Vec<RawNode>> = vec![];
+	for wa in 0..3 {
+		for wz in 0..3 {
+			for order in 0..2 {
+				// nodes: 0 Root, 1 null, 2 int, 3 wrapper of A, 4 wrapper of Z, 5/6 A and Z
+				let (ia, iz) = if order == 0 { (5, 6) } else { (6, 5) };
+				let a = n(Reg::Record("A".into(), vec![("x".into(), 2)]));
+				let z = n(Reg::Record("Z".into(), vec![("a".into(), ia), ("b".into(), ia)]));
+				let (n5, n6) = if order == 0 { (a, z) } else { (z, a) };
+				graphs.push(vec![
+					n(Reg::Record("Root".into(), vec![("a".into(), 3), ("zs".into(), 4)])),
+					n(Reg::Null),
+					n(Reg::Int),
+					n(wrap(wa, ia, 1)),
+					n(wrap(wz, iz, 1)),
+					n5,
+					n6,
+				]);
+				// the same with the wrapper of Z first, and an empty record embedded twice
+				graphs.push(vec![
+					n(Reg::Record("Root".into(), vec![("zs".into(), 4), ("a".into(), 3), ("u".into(), 7), ("v".into(), 7)])),
+					n(Reg::Null),
+					n(Reg::Int),
+					n(wrap(wa, ia, 1)),
+					n(wrap(wz, iz, 1)),
+					if order == 0 { n(Reg::Record("A".into(), vec![("x".into(), 2), ("e".into(), 7)])) } else { n(Reg::Record("Z".into(), vec![("a".into(), ia), ("e".into(), 7)])) },
+					if order == 0 { n(Reg::Record("Z".into(), vec![("a".into(), ia), ("e".into(), 7)])) } else { n(Reg::Record("A".into(), vec![("x".into(), 2), ("e".into(), 7)])) },
+					n(Reg::Record("Unit".into(), vec![])),
+				]);
+			}
+		}
+	}
+	for g in graphs {
+		let mut w = W::default();
+		w.t("graph").n(1).schema(&g);
+		emit(w.s);
+	}
+}
+
+/// an UNKNOWN logical type that carries the name of a known one (the builder API accepts any
+/// name), on underlying types the known one fits and does not fit: what is rendered must parse
+/// back to a schema with the same meaning
+fn unknown_named_like_known(emit: &mut dyn FnMut(String)) {
+	let names = ["decimal", "big-decimal", "uuid", "date", "time-millis", "time-micros", "timestamp-millis", "timestamp-micros", "duration", "local-timestamp-millis"];
+	let unders = [Reg::Bytes, Reg::String, Reg::Int, Reg::Long, Reg::Fixed("F".into(), 12), Reg::Fixed("F".into(), 16)];
+	for name in names {
+		for u in &unders {
+			let g = vec![
+				RawNode { reg: Reg::Record("R".into(), vec![("f".into(), 1)]), logical: None },
+				RawNode { reg: u.clone(), logical: Some(Logical::Unknown(name.into())) },
+			];
+			let mut w = W::default();
+			w.t("graph").n(1).schema(&g);
+			emit(w.s);
+		}
+	}
+}
+
 pub fn generate_graph(stream: &str, seed: u64, n: usize, emit: &mut dyn FnMut(String)) {
 	let mut rng = rng_from(seed, stream);
+	if stream == "graph-wild" {
+		unnamed_cycles(emit);
+	}
+	if stream == "graph" {
+		embedded_records(emit);
+		unknown_named_like_known(emit);
+	}
 	for i in 0..n {
 		let wild = stream == "graph-wild" || rng.gen_bool(0.2);
 		let max_nodes = if i % 10 == 0 { 24 } else { 10 };
